@@ -130,6 +130,24 @@ func (p *pair) stop() {
 	}
 }
 
+// await polls ready until it reports true; when the responder has banned the requester (it does not
+// answer such a request at all) the request is cancelled instead of waiting for its time-out. false:
+// nothing happened within geoWatchdog, the pair is marked hung.
+func (p *pair) await(ready func() bool, cancel context.CancelFunc) bool {
+	deadline := time.Now().Add(geoWatchdog)
+	for !ready() {
+		if time.Now().After(deadline) {
+			p.hung = true
+			return false
+		}
+		if len(p.resp.VerifC19BannedIPs()) > 0 {
+			cancel()
+		}
+		time.Sleep(200 * time.Microsecond)
+	}
+	return true
+}
+
 // ---------------------------------------------------------------------------------------------
 // reference: the common block search as specified
 
@@ -172,6 +190,14 @@ func refCommonHeight(tip, fin, n, fork int) int {
 // ops
 
 const geoWatchdog = 20 * time.Second
+
+// sweepRequestTimeout bounds the requests of the `cs` / `fs` ops (loopback: milliseconds); a request the
+// responder never answers because it banned the requester ends after this time.
+const sweepRequestTimeout = 3 * time.Second
+
+// maxPairsPerCase: a case whose ops lost the connection (ban) that many times skips its remaining sweep
+// ops - on the unchanged repository at most two ops per case do that.
+const maxPairsPerCase = 5
 
 // download runs `dl <startTok> <startH> <endTok> <endH>`.
 func (p *pair) download(c *chains, w []string) (string, []corr.Fail) {
@@ -271,7 +297,9 @@ func (p *pair) commonSearch(c *chains, w []string) (string, []corr.Fail) {
 	for i := range vals {
 		vals[i] = codec.Lisk32(bytes.Repeat([]byte{byte(i + 1)}, 20))
 	}
-	sctx := &lsync.SyncContext{Ctx: context.Background(), FinalizedBlockHeader: finHeader, PeerID: p.resp.ID(), CurrentValidators: vals}
+	rctx, cancel := context.WithTimeout(context.Background(), sweepRequestTimeout)
+	defer cancel()
+	sctx := &lsync.SyncContext{Ctx: rctx, FinalizedBlockHeader: finHeader, PeerID: p.resp.ID(), CurrentValidators: vals}
 	type res struct {
 		h   *blockchain.BlockHeader
 		err error
@@ -287,10 +315,14 @@ func (p *pair) commonSearch(c *chains, w []string) (string, []corr.Fail) {
 		done <- res{h, err}
 	}()
 	var r res
-	select {
-	case r = <-done:
-	case <-time.After(geoWatchdog):
-		p.hung = true
+	if !p.await(func() bool {
+		select {
+		case r = <-done:
+			return true
+		default:
+			return false
+		}
+	}, cancel) {
 		return "timeout", []corr.Fail{fail("c19-common-search-hang", "common block search %v did not end within %s", w, geoWatchdog)}
 	}
 	var fails []corr.Fail
@@ -406,15 +438,17 @@ func genGeometry(rng *rand.Rand, tier string) []corr.Case {
 			continue
 		}
 		byClass := map[string][]string{}
+		wrapsHere := 0
 		for _, n := range rounds {
 			for fin := 0; fin <= prm.Q; fin++ {
 				if prm.F < fin && searchWraps(prm.Q, fin, n) {
 					// the requester ends up banned by the honest responder (see commonSearch): each of these
 					// costs seconds and a new pair of hosts
-					if wrapBudget == 0 || rng.Intn(40) != 0 {
+					if wrapBudget == 0 || wrapsHere >= 2 || rng.Intn(40) != 0 {
 						continue
 					}
 					wrapBudget--
+					wrapsHere++
 				}
 				cl := searchClass(prm.Q, fin, n, prm.F)
 				byClass[cl] = append(byClass[cl], fmt.Sprintf("cs fin=%d n=%d", fin, n))
